@@ -3,6 +3,7 @@
   (work in progress header; replaced at the end)
 -/
 import Bcder.Props.C04
+import Bcder.Lemmas.Window
 namespace Bcder.Props.C05
 open Bcder Bcder.Spec Prog Bcder.Props.C02 Bcder.Props.C09 Bcder.Props.C04
 
@@ -285,5 +286,234 @@ theorem decode_der_injective (f f' : Nat) (a b : Bytes) (ts : List Tree) (ga gb 
 theorem decode_der_canonical_runG (f : Nat) (d : Bytes) (ts : List Tree) (g' : G)
     (h : runG (decodeAll .der f) { data := d, limit := none } = .ok (ts, g')) : d = treesBytes ts :=
   parseAll_canonical f d ts (accepts_runG .der f d ts g' h).1
+
+/-! ## 4. typed framing in DER: the inverse of `C04.frame_definite` -/
+
+theorem St_view_len (d : Bytes) (l : Nat) : (St d (some l)).view.length = min l d.length := by
+  simp [G0.view, List.length_take]
+
+/-- one window operation on a limited source without capture: data and limit move together -/
+theorem step_window0 (d : Bytes) (l : Nat) (o : Op) (ho : o.isWindow) (r : Resp) (g' : G0)
+    (h : stepG0 (St d (some l)) o = .ok (r, g')) :
+    ∃ j, j ≤ l ∧ j ≤ d.length ∧ g' = St (d.drop j) (some (l - j)) := by
+  have hvl := St_view_len d l
+  have stay : g' = St d (some l) → ∃ j, j ≤ l ∧ j ≤ d.length ∧ g' = St (d.drop j) (some (l - j)) :=
+    fun e => ⟨0, Nat.zero_le _, Nat.zero_le _, by simpa using e⟩
+  have move : ∀ n, n ≤ (St d (some l)).view.length →
+      (St d (some l)).advance n = .ok (St (d.drop n) (some (l - n))) := fun n hn =>
+    G0.advance_eq (St d (some l)) rfl n hn
+  cases o with
+  | takeOptU8 =>
+    simp only [stepG0] at h
+    split at h
+    · simp at h; exact stay h.2.symm
+    · rename_i b t hv
+      have h1 : 1 ≤ (St d (some l)).view.length := by rw [hv]; simp
+      rw [move 1 h1] at h
+      simp only [Except.ok.injEq, Prod.mk.injEq] at h
+      exact ⟨1, by omega, by omega, h.2.symm⟩
+  | peekAt i => simp [stepG0] at h; exact stay h.2.symm
+  | peek2 => simp [stepG0] at h; exact stay h.2.symm
+  | need n => simp [stepG0] at h; exact stay h.2.symm
+  | takeN n =>
+    simp only [stepG0] at h
+    split at h
+    · simp at h
+    · rename_i hn
+      rw [move n (by omega)] at h
+      simp at h
+      exact ⟨n, by omega, by omega, h.2.symm⟩
+  | skipN n =>
+    simp only [stepG0] at h
+    split at h
+    · simp at h
+    · rename_i hn
+      rw [move n (by omega)] at h
+      simp at h
+      exact ⟨n, by omega, by omega, h.2.symm⟩
+  | sliceN n =>
+    simp only [stepG0] at h
+    split at h
+    · simp at h
+    · simp at h; exact stay h.2.symm
+  | getLimit => simp [stepG0] at h; exact stay h.2.symm
+  | setLimit l' => exact absurd ho (by simp [Op.isWindow])
+  | reqCapped n => simp [stepG0] at h; exact stay h.2.symm
+  | capBegin => exact absurd ho (by simp [Op.isWindow])
+  | capEnd => exact absurd ho (by simp [Op.isWindow])
+
+theorem run_window0 (p : Prog α) (hp : W p) : ∀ (d : Bytes) (l : Nat) (a : α) (g' : G0),
+    runG0 p (St d (some l)) = .ok (a, g') →
+    ∃ j, j ≤ l ∧ j ≤ d.length ∧ g' = St (d.drop j) (some (l - j)) := by
+  induction hp with
+  | ret a => intro d l a' g' h; simp [runG0] at h; exact ⟨0, Nat.zero_le _, Nat.zero_le _, by simpa using h.2.symm⟩
+  | fail e => intro d l a g' h; simp [runG0] at h
+  | op o k ho _ ih =>
+    intro d l a g' h
+    simp only [runG0] at h
+    cases hs : stepG0 (St d (some l)) o with
+    | error e => simp [hs] at h
+    | ok rg =>
+      obtain ⟨r, g1⟩ := rg
+      simp only [hs] at h
+      obtain ⟨j1, h1, h2, rfl⟩ := step_window0 d l o ho r g1 hs
+      obtain ⟨j2, h3, h4, rfl⟩ := ih r _ _ a g' h
+      simp only [List.length_drop] at h4
+      exact ⟨j1 + j2, by omega, by omega, by rw [List.drop_drop]; congr 2; omega⟩
+
+/-- a definite length read in DER mode fits the four length octets the library supports -/
+theorem readLen_lt (ber : Bool) (bs : Bytes) (n k : Nat) (h : readLen ber bs = some (some n, k)) : n < 2 ^ 32 := by
+  cases bs with
+  | nil => simp [readLen] at h
+  | cons b rest =>
+    have hb := byte_lt_256 b
+    simp only [readLen] at h
+    split at h
+    · simp at h; omega
+    · split at h
+      · simp at h
+      · split at h
+        · simp at h
+        · rename_i hk
+          split at h
+          · simp at h
+          · have hlt := C14.beValue_lt (rest.take (b.toNat - 128))
+            have hle : (rest.take (b.toNat - 128)).length ≤ 4 := by rw [List.length_take]; omega
+            have hp : 256 ^ (rest.take (b.toNat - 128)).length ≤ 256 ^ 4 := Nat.pow_le_pow_right (by decide) hle
+            have hv : ∀ v kk, (some (some (beValue (rest.take (b.toNat - 128))), 1 + (b.toNat - 128)) : Option (Option Nat × Nat))
+                = some (some v, kk) → v < 2 ^ 32 := by
+              intro v kk e; simp at e; omega
+            split at h
+            · exact hv _ _ h
+            · split at h
+              · exact hv _ _ h
+              · simp at h
+
+theorem take_take_le (d : Bytes) (j l : Nat) (h : j ≤ l) : (d.take l).take j = d.take j := by
+  rw [List.take_take, Nat.min_eq_left h]
+
+/-- the octets of a header accepted in DER mode, as a prefix -/
+theorem header_take (bs : Bytes) (id : Ident) (k n kl : Nat) (h1 : readIdent bs = some (id, k))
+    (h2 : readLen false (bs.drop k) = some (some n, kl)) :
+    bs.take (k + kl) = hdrOctets id.cls id.constructed id.num n ∧ k + kl ≤ bs.length := by
+  have e1 := readIdent_canonical bs id k h1
+  have e2 := readLen_canonical _ n kl h2
+  have hk := readIdent_le bs id k h1
+  have hkl := (readLen_bound _ _ _ _ h2).2
+  simp only [List.length_drop] at hkl
+  refine ⟨?_, by omega⟩
+  unfold hdrOctets
+  rw [← e1, ← e2, List.take_add]
+
+/-- **4, general form.**  If a tag-selective read in DER mode returns a value, then the source began
+    with the CANONICAL header of that tag (either form `b`) announcing some length `len`, all of it
+    inside the limit, and the closure was run on the `len`-octet window behind the header. -/
+theorem frame_inv {α : Type} (c : Cons) (hm : c.mode = .der) (cls num : Nat) (ht : TagOK cls num)
+    (op : Tag → Content → Prog (α × Content)) (d : Bytes) (lim : Option Nat) (res : α) (c' : Cons) (g' : G0)
+    (h : runG0 (processNextValue c (some (C12.tagOf cls num)) op) (St d lim) = .ok ((some res, c'), g')) :
+    ∃ (b : Bool) (len : Nat) (body : Bytes) (k' : Content) (g3 g4 : G0),
+      d = hdrOctets cls b num len ++ body ∧ c' = c ∧ len < 2 ^ 32 ∧
+      (∀ l, lim = some l → (hdrOctets cls b num len).length + len ≤ l) ∧
+      runG0 (op (C12.tagOf cls num) (if b = true then .cons ⟨.definite, .der⟩ else .prim .der))
+        (St body (some len)) = .ok ((res, k'), g3) ∧
+      runG0 k'.exhausted g3 = .ok ((), g4) ∧
+      g' = { g4 with limit := lim.map (· - ((hdrOctets cls b num len).length + len)) } := by
+  rw [pnvE_eq c cls num ht.hc ht.hn op _ rfl] at h
+  unfold pnvE at h
+  split at h
+  · simp at h
+  split at h
+  · cases h
+  split at h
+  · simp at h
+  split at h
+  · simp at h
+  cases hr : readIdent (St d lim).view with
+  | none => rw [hr] at h; cases h
+  | some r =>
+    obtain ⟨id, k⟩ := r
+    rw [hr] at h
+    simp only at h
+    split at h
+    · rename_i hid
+      obtain ⟨hcls, hnum⟩ := hid
+      have hk := readIdent_le _ id k hr
+      have hv1 : ((St d lim).adv k).view = (St d lim).view.drop k := G0.adv_view _ k hk
+      rw [hv1, hm] at h
+      cases hl : readLen Mode.der.isBer ((St d lim).view.drop k) with
+      | none => rw [hl] at h; cases h
+      | some r2 =>
+        obtain ⟨len?, kl⟩ := r2
+        rw [hl] at h
+        simp only at h
+        have heoc : isEocIdent id = false := by
+          simp only [isEocIdent, Bool.and_eq_false_iff, beq_eq_false_iff_ne, ne_eq]
+          by_cases h0 : id.cls = 0
+          · right; intro h1; exact ht.hne ⟨hcls ▸ h0, hnum ▸ h1⟩
+          · left; exact h0
+        unfold bodyF at h
+        simp only [heoc, Bool.false_eq_true, if_false] at h
+        cases len? with
+        | none =>
+          simp only [hm] at h
+          split at h
+          · cases h
+          · rename_i hx; simp at hx
+        | some len =>
+          obtain ⟨htake, hsum⟩ := header_take _ id k len kl hr hl
+          have hlen32 := readLen_lt _ _ _ _ hl
+          simp only [hm] at h
+          rw [G0.adv_adv] at h
+          have hdata : ((St d lim).adv (k + kl)).data = d.drop (k + kl) := rfl
+          have hlimit : ((St d lim).adv (k + kl)).limit = lim.map (· - (k + kl)) := rfl
+          rw [hdata, hlimit] at h
+          by_cases hover : (match lim.map (· - (k + kl)) with | some l => decide (len > l) | none => false) = true
+          · trace_state; simp only [hover, if_true] at h; cases h
+          simp only [hover, Bool.false_eq_true, if_false] at h
+          have hcer : (id.constructed && Mode.der == Mode.cer) = false := by cases id.constructed <;> rfl
+          simp only [hcer, Bool.false_eq_true, if_false] at h
+          -- relate data and view
+          have hdtake : d.take (k + kl) = hdrOctets cls id.constructed num len := by
+            rw [← hcls, ← hnum, ← htake]
+            cases hlim : lim with
+            | none => rfl
+            | some l =>
+              have : k + kl ≤ l := by
+                have := view_le_limit (St d (some l)) l rfl
+                rw [hlim] at hsum; omega
+              simp only [G0.view]
+              rw [take_take_le _ _ _ this]
+          have hdlen : k + kl ≤ d.length := Nat.le_trans hsum (G0.view_length_le _)
+          have hhl : (hdrOctets cls id.constructed num len).length = k + kl := by
+            rw [← hdtake, List.length_take]; omega
+          cases hrun : runG0 (op (C12.tagOf id.cls id.num)
+              (if id.constructed = true then Content.cons ⟨.definite, .der⟩ else Content.prim .der))
+              (St (d.drop (k + kl)) (some len)) with
+          | error e => rw [hrun] at h; cases h
+          | ok r3 =>
+            obtain ⟨⟨res', k'⟩, g3⟩ := r3
+            rw [hrun] at h
+            simp only at h
+            cases hex : runG0 k'.exhausted g3 with
+            | error e => rw [hex] at h; cases h
+            | ok r4 =>
+              obtain ⟨u, g4⟩ := r4
+              rw [hex] at h
+              simp only [Except.ok.injEq, Prod.mk.injEq, Option.some.injEq] at h
+              obtain ⟨⟨hres, hc'⟩, hg'⟩ := h
+              subst hres
+              rw [hcls, hnum] at hrun
+              refine ⟨id.constructed, len, d.drop (k + kl), k', g3, g4, ?_, hc'.symm, hlen32, ?_, hrun, hex, ?_⟩
+              · rw [← hdtake, List.take_append_drop]
+              · intro l hl'
+                subst hl'
+                have : k + kl ≤ l := by
+                  have := view_le_limit (St d (some l)) l rfl
+                  omega
+                simp only [Option.map, gt_iff_lt, decide_eq_true_eq] at hover
+                omega
+              · rw [← hg', hhl]
+                cases lim <;> simp [Nat.sub_sub]
+    · simp at h
 
 end Bcder.Props.C05
